@@ -4,19 +4,22 @@
 cd /verif || exit 2
 out=/verif/seeded/RESULTS.tsv
 echo -e "seed\tproperty\tdetected\tseconds\tfirst_failure" > $out
-for d in seeded/*/; do
+for d in ${SEEDS:-seeded/*/}; do
   s=$(basename $d)
   [ -f $d/patch.diff ] || continue
   prop=$(python3 -c "import json,sys;print(json.load(open('$d/meta.json'))['property'])" 2>/dev/null || echo ${s%%-*})
+  # a seed may be caught by the check of a neighbouring property (recorded in <seed>/check_property)
+  chk=$prop; [ -f $d/check_property ] && chk=$(cat $d/check_property)
   if ! git -C /repo apply --check $(realpath $d/patch.diff) 2>/dev/null; then
     echo -e "$s\t$prop\tpatch-does-not-apply\t0\t" >> $out; continue
   fi
   t0=$(date +%s)
-  log=$(tools/with-seed.sh $d ./check $prop quick 2>&1)
+  log=$(tools/with-seed.sh $d ./check $chk quick 2>&1)
   rc=$?
   t1=$(date +%s)
   first=$(echo "$log" | grep -m1 "failure sig" | cut -c1-160 | tr '\t' ' ')
-  if echo "$log" | grep -q "^VIOLATION property=$prop"; then det=yes; else det=no; fi
+  if echo "$log" | grep -q "^VIOLATION property=$chk"; then det=yes; else det=no; fi
+  [ "$chk" != "$prop" ] && [ $det = yes ] && det="yes(by $chk)"
   echo -e "$s\t$prop\t$det\t$((t1-t0))\t$first" >> $out
 done
 git -C /repo status --short
